@@ -1598,6 +1598,8 @@ impl Property for C10 {
                 let mut kinds: Vec<String> = Vec::new();
                 // marker: some operation makes a path exist that did not exist before
                 let mut creates = false;
+                // marker: a `.luaurc` appears where there was none
+                let mut creates_luaurc = false;
                 for op in &scn.ops {
                     match op {
                         Op::Pass | Op::Wait { .. } => {}
@@ -1605,6 +1607,9 @@ impl Property for C10 {
                             if existing.insert(path.clone()) {
                                 kinds.push("Add".to_owned());
                                 creates = true;
+                                if gen::file_name(path) == ".luaurc" {
+                                    creates_luaurc = true;
+                                }
                             } else {
                                 kinds.push("Edit".to_owned());
                             }
@@ -1667,6 +1672,9 @@ impl Property for C10 {
                 if creates {
                     kinds.push("Creates".to_owned());
                 }
+                if creates_luaurc {
+                    kinds.push("CreatesLuaurc".to_owned());
+                }
                 kinds.sort();
                 kinds
             }
@@ -1674,7 +1682,7 @@ impl Property for C10 {
         }
     }
     fn rule_text(&self) -> String {
-        "The first indices enumerate completely all histories of <= 2 (quick) / <= 3 (thorough) operations from a 16-letter alphabet over one fixed bundle project, once through the WorkerTree notification API (L1) and three times through the real FileWatcher behind the notify stub (L2, one per save style). Each further simulated run is one history: a PRNG-generated project (several sources in nested directories, optional bundle DAG with data files and modules outside the input, or a single bundle entry), configuration and 1-12 user operations (edit / break / fix / add / add-require / remove file / remove directory / rename / delete-and-recreate / touch / configuration change incl. filter-only, rule-order-only and invalid configurations / life cycle of the default configuration files / .luaurc, sourcemap and require-mode changes / a module outside the input that starts being required later / a fail-fast pass / transient I/O fault then recovery) interleaved with passes, driven through one long-lived WorkerTree (L1: source_changed / remove_source / collect_work|add_source / process as --watch calls them) over SimFs or the real Memory arm under a chosen enumeration order and std hash seed. After every pass a fresh run on a thread of its own over a copy of the current inputs (output location reset to the pre-existing foreign content) is the reference: output trees (files and directories) and error sets must be equal; a final idle pass must not change the tree. One in ten eligible L1 histories runs in place (no output location, or the input as output): the reference is then a fresh in-place run over a second store that only ever received the user's writes. evaluations = process() executions (passes + fresh runs). A history is non-trivial when some pass after the first rewrote a strict non-empty subset of the outputs; distinct = distinct sequence of per-pass normalised op logs.".to_owned()
+        "The first indices enumerate completely all histories of <= 2 (quick) / <= 3 (thorough) operations from a 16-letter alphabet over one fixed bundle project, once through the WorkerTree notification API (L1) and three times through the real FileWatcher behind the notify stub (L2, one per save style). Each further simulated run is one history: a PRNG-generated project (several sources in nested directories, optional bundle DAG with data files and modules outside the input, or a single bundle entry), configuration and 1-12 user operations (edit / break / fix / add / add-require / remove file / remove directory / rename / delete-and-recreate / touch / configuration change incl. filter-only, rule-order-only and invalid configurations / life cycle of the default configuration files / .luaurc, sourcemap and require-mode changes / a module outside the input that starts being required later / a fail-fast pass / transient I/O fault then recovery) interleaved with passes, driven through one long-lived WorkerTree (L1: source_changed / remove_source / collect_work|add_source / process as --watch calls them) over SimFs, the real Memory arm or (the last 320 / 12 000 histories of a batch, in which another program also creates folders in the output location) the real file-system arm in a scratch directory under a chosen enumeration order and std hash seed. After every pass a fresh run on a thread of its own over a copy of the current inputs (output location reset to the pre-existing foreign content) is the reference: output trees (files and directories) and error sets must be equal; a final idle pass must not change the tree. One in ten eligible L1 histories runs in place (no output location, or the input as output): the reference is then a fresh in-place run over a second store that only ever received the user's writes. evaluations = process() executions (passes + fresh runs). A history is non-trivial when some pass after the first rewrote a strict non-empty subset of the outputs; distinct = distinct sequence of per-pass normalised op logs.".to_owned()
     }
     fn assumptions(&self) -> Vec<String> {
         vec![
